@@ -28,6 +28,7 @@ type vfPairCfg struct {
 	WinServer bool  `json:"winserver,omitempty"` // Windows server: "!\n" framing in both directions
 	TmuxJunk  bool  `json:"tmuxjunk,omitempty"`  // server believes it runs in tmux normal mode (junk-tolerant reads, no binary upload)
 	Progress  bool  `json:"progress,omitempty"`
+	Fork      bool  `json:"fork,omitempty"` // -f: transfer in the background (session engine with a tunnel only)
 	SegC2S    vfSeg `json:"seg_c2s"`
 	SegS2C    vfSeg `json:"seg_s2c"`
 }
